@@ -149,6 +149,8 @@ def replay_case(case):
         cfun = lambda l: cart_rep_general(G, l)  # noqa: E731
     det = round(float(np.linalg.det(G)))
     shift = np.array([cg.val(cg.dyadic(rng.uniform(-3, 3), 10)) for _ in range(3)]) if case["translate"] else np.zeros(3)
+    if case["translate"] and case["id"] % 2:
+        shift = np.array([cg.val(x) for x in cg.far_origin(rng)])      # a translation by tens of bohr
     nsh = rng.randint(2, 3)
     cens = [cg.center(rng, 1.5) for _ in range(3)]
     lmax = 2 if case["eri"] else 4
@@ -260,6 +262,10 @@ def replay_case(case):
     esp = m("gbasis.evals.electrostatic_potential").electrostatic_potential
     cmp("electrostatic_potential", esp(shells2, P2, move(pts), move(chg_pos), np.abs(chg), threshold_dist=0.05),
         esp(shells, P, pts, chg_pos, np.abs(chg), threshold_dist=0.05))
+    # points 1e-3 bohr from a nucleus (innermost shells of an atomic grid), no masking
+    near = chg_pos[:2] + np.array([[6e-4, -5e-4, 6e-4], [-4e-4, 7e-4, 5e-4]])
+    cmp("electrostatic_potential 1e-3 bohr from a nucleus", esp(shells2, P2, move(near), move(chg_pos), np.abs(chg)),
+        esp(shells, P, near, chg_pos, np.abs(chg)))
     if case["eri"]:
         er = m("gbasis.integrals.electron_repulsion").electron_repulsion_integral
         e1 = er(shells, notation="chemist")
